@@ -4,11 +4,15 @@ _COMMON_NOTE = ("Trusted: CPython's ast parser; documented semantics of NumPy / 
                 "Rules bind to the package's public API and registry names; a vanished anchor or an idiom outside the recognised "
                 "family is reported as ANALYSIS-ERROR (exit 2), never as a pass. Decides structural necessary conditions only - ")
 
+_HYGIENE = (" Package-wide API-misuse rules run under every property, scoped to its anchor files and their call closure: no module-level state (GL1), value "
+            "buffers not integer-typed (DT), getter views and getter results never modified in place (VW, AR), gap functions and observers pure (OBS, AL), "
+            "reshape follows nesting order (RS), own-column broadcasts (BC), integer options compared with None (TD).")
+
 _THOROUGH = " Thorough tier additionally re-analyses AST-computed breaking variants (must fire) and benign twins (must stay silent) of the current tree."
 
 
 def _t(level, design, not_covered, technique):
-    return {"level": level + _THOROUGH, "design_ref": design, "note": _COMMON_NOTE + "NOT covered: " + not_covered, "technique": technique}
+    return {"level": level + _HYGIENE + _THOROUGH, "design_ref": design, "note": _COMMON_NOTE + "NOT covered: " + not_covered, "technique": technique}
 
 
 TEXTS = {
